@@ -644,9 +644,26 @@ def gen_c19_scans(ctx):
     scan(ctx, P + ['C20'], 'droop/**/*.py', 'deterministic', 'the package imports no clock, randomness, environment or threading module', not bad, '; '.join(bad))
     # CLI: a KeyboardInterrupt during the count leads to the renderers being called with intr=True
     f, src = _func_src(repo, 'Droop.main')
-    ok = f is not None and 'except KeyboardInterrupt:' in src and 'intr = True' in src and 'E.report(intr)' in src and \
-        'E.dump(intr)' in src and 'E.json(intr)' in src
-    scan(ctx, P, 'Droop.main', 'cli-intr', 'the command-line driver catches KeyboardInterrupt around the count and passes intr to report/dump/json', ok, shape=True)
+    flag = None
+    renders = []
+    if f is not None:
+        for n in ast.walk(f.node):
+            if isinstance(n, ast.ExceptHandler) and n.type is not None and 'KeyboardInterrupt' in norm_src(n.type):
+                for x in ast.walk(n):
+                    if isinstance(x, ast.Assign) and isinstance(x.value, ast.Constant) and x.value.value is True \
+                            and len(x.targets) == 1 and isinstance(x.targets[0], ast.Name):
+                        flag = x.targets[0].id
+            if isinstance(n, ast.Call) and isinstance(n.func, ast.Attribute) and n.func.attr in ('report', 'dump', 'json') \
+                    and isinstance(n.func.value, ast.Name):
+                renders.append(n)
+    if flag is None or {c.func.attr for c in renders} != {'report', 'dump', 'json'}:
+        scan(ctx, P, 'Droop.main', 'cli-intr', 'the command-line driver catches KeyboardInterrupt around the count and passes the flag to report/dump/json',
+             False, 'handler flag: %s; renderer calls: %s' % (flag, sorted(c.func.attr for c in renders)), shape=True)
+    else:
+        lacking = [c.func.attr for c in renders
+                   if not any(isinstance(a, ast.Name) and a.id == flag for a in list(c.args) + [k.value for k in c.keywords])]
+        scan(ctx, P, 'Droop.main', 'cli-intr', 'every rendering the command-line driver produces after a KeyboardInterrupt is told about it '
+             '(the flag set in the handler is passed to each of report / dump / json)', not lacking, 'called without the flag: %s' % lacking)
     # record.report / dump fill the header on demand
     for q in ('droop.record.ElectionRecord.report', 'droop.record.ElectionRecord.dump'):
         f, src = _func_src(repo, q)
@@ -785,6 +802,30 @@ def gen_c10_scans(ctx):
                         src = norm_src(n.target)
                         if not src.startswith(bvar + '.') and (n.target.attr not in ACCUMULATORS or not isinstance(n.op, (ast.Add, ast.Sub))):
                             bad.append('%s:%d non-additive update of %s' % (mn, n.lineno, src))
+                # a local that one iteration reads before (re)assigning it carries a value from ballot to ballot: the
+                # result may then depend on the order of the ballot lines
+                stores, loads = {}, {}
+                inner_targets = set()
+                for n in ast.walk(ast.Module(body=loop.body, type_ignores=[])):
+                    if isinstance(n, (ast.For, ast.comprehension)):
+                        inner_targets |= {x.id for x in ast.walk(n.target) if isinstance(x, ast.Name)}
+                    if isinstance(n, (ast.FunctionDef, ast.Lambda)):
+                        inner_targets |= {a.arg for a in n.args.args}
+                    if isinstance(n, ast.Name):
+                        d = stores if isinstance(n.ctx, ast.Store) else loads
+                        pos = (n.lineno, n.col_offset)
+                        d[n.id] = min(d.get(n.id, pos), pos)
+                for name, first_store in stores.items():
+                    if name == bvar or name in inner_targets:
+                        continue
+                    first_load = loads.get(name)
+                    if first_load is not None and first_load[0] <= first_store[0] and not (first_load[0] == first_store[0] and first_load[1] > first_store[1]):
+                        # (an augmented assignment `x += e` of a local counts: it reads x first)
+                        bad.append('%s:%d local %s is carried from one ballot to the next inside a ballot sweep' % (mn, first_store[0], name))
+                for n in ast.walk(ast.Module(body=loop.body, type_ignores=[])):
+                    if isinstance(n, ast.AugAssign) and isinstance(n.target, ast.Name) and n.target.id != bvar \
+                            and not isinstance(n.op, (ast.Add, ast.Sub)):
+                        bad.append('%s:%d non-additive update of local %s inside a ballot sweep' % (mn, n.lineno, n.target.id))
         scan(ctx, P, mn, 'sweeps-commute',
              'inside every sweep over the ballots, state other than the ballot itself is updated only by += / -= on exact sums (so the order of ballot lines is irrelevant)',
              not bad, '; '.join(bad))
